@@ -52,9 +52,12 @@ JNull    == Lit("null")
 
 Punct == {"[", "]", "{", "}", ",", ":"}
 
+\* (a value may also be given flat, as its token sequence [t |-> "toks", v |-> <<tokens>>]: used by
+\*  the trace module for values nested too deeply to be shipped as a tree)
 RECURSIVE Tokens(_)
 Tokens(v) ==
     CASE v.t = "lit" -> <<v.s>>
+      [] v.t = "toks" -> v.v
       [] v.t = "arr" -> <<"[">> \o JoinTok([i \in 1..Len(v.v) |-> Tokens(v.v[i])], ",") \o <<"]">>
       [] v.t = "obj" -> <<"{">> \o JoinTok([i \in 1..Len(v.v) |-> <<v.v[i][1], ":">> \o Tokens(v.v[i][2])], ",")
                            \o <<"}">>
@@ -64,6 +67,7 @@ Compact(v) == Concat(Tokens(v))
 RECURSIVE Leaves(_)
 Leaves(v) ==
     CASE v.t = "lit" -> {v.s}
+      [] v.t = "toks" -> {v.v[i] : i \in 1..Len(v.v)} \ Punct
       [] v.t = "arr" -> UNION {Leaves(v.v[i]) : i \in 1..Len(v.v)}
       [] v.t = "obj" -> UNION {{v.v[i][1]} \cup Leaves(v.v[i][2]) : i \in 1..Len(v.v)}
 
